@@ -236,7 +236,9 @@ Theorem map_order_refuted :
       read_group false H256 U5 r [s] = GOk ids (RId a) /\
       read_group false H256 U5 r [s'] = GOk ids' (RId a') /\
       ids <> ids' /\
-      (a = a' -> exists x y, Collision H256 x y \/ Collision U5 x y).
+      (a = a' ->
+       Collision H256 (roster_pre (roster_of ids)) (roster_pre (roster_of ids')) \/
+       Collision U5 (roster_uuid_pre H256 (roster_of ids)) (roster_uuid_pre H256 (roster_of ids'))).
 Proof.
   exists f20_reg, (f20_server [f20_sa; f20_sb]), (f20_server [f20_sb; f20_sa]).
   split; [|split].
@@ -252,8 +254,8 @@ Proof.
     + repeat constructor.
     + repeat constructor.
     + discriminate F.
-    + exists (roster_pre r1), (roster_pre r2). left. exact C.
-    + exists (roster_uuid_pre H256 r1), (roster_uuid_pre H256 r2). right. exact C.
+    + left. exact C.
+    + right. exact C.
 Qed.
 
 Example order_hypotheses_satisfiable :
@@ -398,6 +400,56 @@ Proof.
     apply (Permutation_in (l := sort_sids l)); [apply sort_perm | exact Hx].
   - apply (Permutation_NoDup (l := map sid_name l)); [apply Permutation_map; symmetry; apply sort_perm | exact NDl].
   - apply sort_idempotent. exact NDl.
+Qed.
+
+(* ---- the private configuration: Save, then LoadCothority + GetServerIdentity ----
+   whatever order the next reader visits the written Services map in, it returns the
+   identity the first reader returned -- public and PRIVATE key, address, description,
+   URL, and every per-service key PAIR -- and hence the same roster id *)
+Lemma co_with_srv_id c : co_with_srv c (co_srv c) = c.
+Proof. destruct c; reflexivity. Qed.
+
+Lemma write_private_nodup c : NoDup (map sc_name (co_srv c)) -> write_private c = c.
+Proof. intros ND. unfold write_private. rewrite (to_map_nodup _ ND). destruct c; reflexivity. Qed.
+
+Theorem private_roundtrip r c c' :
+  NoDup (map sc_name (co_srv c)) ->
+  same_cothority_up_to_order (write_private c) c' ->
+  get_server_identity true r c' = get_server_identity true r c.
+Proof.
+  intros ND S. rewrite (write_private_nodup c ND) in S. symmetry.
+  apply get_server_identity_order_independent. exact S.
+Qed.
+
+Corollary private_roundtrip_roster (H256 U5 : bytes -> bytes) r c c' :
+  NoDup (map sc_name (co_srv c)) ->
+  same_cothority_up_to_order (write_private c) c' ->
+  read_private true H256 U5 r c' = read_private true H256 U5 r c.
+Proof. intros ND S. unfold read_private. rewrite (private_roundtrip r c c' ND S). reflexivity. Qed.
+
+(* the theorem is not vacuous: a configuration with a private key and two service key
+   pairs, re-read in the other order *)
+Definition secret_s : bytes := bs "secret-s".
+Definition secret_a : bytes := bs "secret-a".
+Definition secret_b : bytes := bs "secret-b".
+Definition priv_sa : svc_conf := {| sc_name := bs "a"; sc_suite := bs "Ed25519"; sc_pub := Some (k32 "A"); sc_priv := Some (Some secret_a) |}.
+Definition priv_sb : svc_conf := {| sc_name := bs "b"; sc_suite := bs "Ed25519"; sc_pub := Some (k32 "B"); sc_priv := Some (Some secret_b) |}.
+Definition priv_conf (o : list svc_conf) : cothority :=
+  {| co_suite_known := true; co_pub := Some (k32 "S"); co_priv := Some secret_s;
+     co_addr := bs "tls://10.0.0.1:7770"; co_host := bs "10.0.0.1"; co_port := Some 7770%Z;
+     co_desc := bs "d"; co_url := []; co_tlskey := []; co_srv := o |}.
+
+Example private_roundtrip_example :
+  NoDup (map sc_name (co_srv (priv_conf [priv_sa; priv_sb]))) /\
+  same_cothority_up_to_order (write_private (priv_conf [priv_sa; priv_sb])) (priv_conf [priv_sb; priv_sa]) /\
+  exists i, get_server_identity true f20_reg (priv_conf [priv_sb; priv_sa]) = IOk i /\
+            i_priv i = Some secret_s /\
+            map sid_priv (i_srv i) = [Some secret_a; Some secret_b].
+Proof.
+  assert (ND : NoDup (map sc_name [priv_sa; priv_sb])) by (repeat constructor; simpl; intuition discriminate).
+  split; [exact ND|]. split.
+  - rewrite write_private_nodup by exact ND. split; [reflexivity|]. split; [apply perm_swap | exact ND].
+  - eexists. split; [reflexivity|]. split; reflexivity.
 Qed.
 
 (* an empty description does not survive the writer *)
